@@ -11,6 +11,7 @@
  *   W  one iteration of the real worker loop (only when the semaphore is > 0, i.e. the worker is not blocked)
  *   X  qb_log_thread_stop() - its pthread_join runs worker iterations until the worker exits
  *   B  producer posts a message while the backlog counter is just below the 512000-byte limit
+ *   C  a control operation on a threaded target (qb_log_thread_pause + resume, as qb_log_ctl2 does), at any time
  * One W = one pass through the worker's for(;;): the sem_wait at the top of the loop
  * returns from the worker on its second evaluation; pthread_exit is 'return'.
  * Stubs: counting semaphores and ghost locks that assert use-after-destroy,
@@ -30,6 +31,7 @@
 #include "os_base.h"
 #include <qb/qbdefs.h>
 #include <qb/qbutil.h>
+#include "log_int.h"
 
 #ifndef NOPS
 #define NOPS 4
@@ -143,8 +145,8 @@ static void post(void)
 }
 
 struct opdef { uint8_t kind; };
-static const struct opdef ALPHA[] = { {0} /*S*/, {1} /*P*/, {2} /*W*/, {3} /*X*/, {4} /*B*/ };
-#define NALPHA 5
+static const struct opdef ALPHA[] = { {0} /*S*/, {1} /*P*/, {2} /*W*/, {3} /*X*/, {4} /*B*/, {5} /*C: control operation on a threaded target*/ };
+#define NALPHA 6
 
 static int started;     /* logging thread believed running by the application */
 static void do_op(int kind)
@@ -172,6 +174,14 @@ static void do_op(int kind)
 		started = 0;
 		PROP(delivered + dropped_expected == posted, "stop returns only after everything still queued was written");
 		break;
+	case 5: {
+		/* what qb_log_ctl2 does around every reconfiguration of a threaded target - at ANY time:
+		 * before the thread is started, while it runs, after it was stopped */
+		static struct qb_log_target tgt;
+		tgt.threaded = QB_TRUE;
+		qb_log_thread_pause(&tgt);
+		qb_log_thread_resume(&tgt);
+		break; }
 	case 4:
 		if (!started) break;
 		/* backlog just below the limit: this post must be dropped and counted, not queued */
